@@ -15,6 +15,7 @@ import PqlModel.Props.C05WriteIRStmt
 import PqlModel.Props.C02SplitImperative
 import PqlModel.Props.C05NoPlaceholder
 import PqlModel.Props.C05NoPlaceholderCli
+import PqlModel.Props.IRHeadlinesB
 #print axioms Pql.C05.C05_ends_with_semicolon
 #print axioms Pql.C05.C05_subqueryName_injective
 #print axioms Pql.C05.C05_chain_names_by_index
@@ -142,3 +143,8 @@ import PqlModel.Props.C05NoPlaceholderCli
 #print axioms Pql.WriteInv.cli_out_sqls
 #print axioms Pql.WriteInv.C05_cli_no_placeholder
 #print axioms Pql.WriteInv.C05_cli_bytes_cex
+#print axioms Pql.IRHead.C05_single_statement_ir
+#print axioms Pql.IRHead.C05_no_placeholder_ir
+#print axioms Pql.IRHead.C05_ends_with_semicolon_ir
+#print axioms Pql.IRHead.C05_on_translated_code
+#print axioms Pql.IRHead.C05_on_translated_code_nonvacuous
